@@ -96,6 +96,9 @@ func (daYun *DaYun) GetXun() string {
 
 // GetXunKong 获取旬空(空亡)
 func (daYun *DaYun) GetXunKong() string {
+	if daYun.index < 1 {
+		return ""
+	}
 	return LunarUtil.GetXunKong(daYun.GetGanZhi())
 }
 
